@@ -462,6 +462,126 @@ pub fn run(seed: u64, n: u64) {
                 // presentation without the block hash in its context cannot even be produced for this request; drop it afterwards
                 let mut p2 = pres.clone(); p2.presentation_context.requested.clear();
                 run("presentation_without_block_hash", false, &vctx, &vreq, &p2, &vra, &mat);
+                // ---- allowed-issuer / allowed-type lists with several entries: ONE entry has to match all fields
+                let on = if network == Network::Testnet { Network::Mainnet } else { Network::Testnet };
+                let kind_t = if matches!(c, Cred::Account { .. }) { IdentityCredentialType::AccountCredential } else { IdentityCredentialType::IdentityCredential };
+                let other_t = if matches!(c, Cred::Account { .. }) { IdentityCredentialType::IdentityCredential } else { IdentityCredentialType::AccountCredential };
+                let did = |i: u32, n: Network| IdentityProviderDid::new(i, n);
+                let lists: Vec<(&str, Vec<IdentityProviderDid>, Vec<IdentityCredentialType>)> = vec![
+                    ("issuers_first_of_two", vec![did(ip.0, network), did(ip.0 + 1, on)], vec![kind_t]),
+                    ("issuers_second_of_two", vec![did(ip.0 + 1, on), did(ip.0, network)], vec![other_t, kind_t]),
+                    ("issuers_third_of_three", vec![did(ip.0 + 1, network), did(ip.0, on), did(ip.0, network)], vec![kind_t, other_t]),
+                    ("issuers_cross_ip_and_network", vec![did(ip.0, on), did(ip.0 + 1, network)], vec![kind_t]),
+                    ("issuers_cross_three", vec![did(ip.0 + 2, network), did(ip.0, on), did(ip.0 + 1, network)], vec![kind_t, other_t]),
+                    ("issuers_same_ip_other_network_twice", vec![did(ip.0, on), did(ip.0, on)], vec![kind_t]),
+                    ("issuers_same_network_other_ips", vec![did(ip.0 + 1, network), did(ip.0 + 2, network)], vec![kind_t]),
+                    ("issuers_empty", vec![], vec![kind_t]),
+                    ("source_empty", vec![did(ip.0, network)], vec![]),
+                    ("source_other_twice", vec![did(ip.0, network)], vec![other_t, other_t]),
+                    ("source_duplicate_match", vec![did(ip.0, network), did(ip.0, network)], vec![kind_t, kind_t]),
+                    ("type_ok_issuer_cross", vec![did(ip.0, on), did(ip.0 + 7, network)], vec![other_t, kind_t]),
+                    ("type_bad_issuer_ok", vec![did(ip.0, network)], vec![other_t]),
+                ];
+                for (name, issuers, source) in lists {
+                    let mut cl = claims.clone(); cl.issuers = issuers.clone(); cl.source = source.clone();
+                    let d7 = VerificationRequestDataBuilder::new(unfilled.clone()).subject_claim(cl.clone()).build();
+                    let vreq7 = VerificationRequest { context: unfilled.clone(), subject_claims: d7.subject_claims.clone(), anchor_transaction_hash: vreq.anchor_transaction_hash };
+                    let vra7 = VerificationRequestAnchorAndBlockHash { verification_request_anchor: d7.to_anchor(None), block_hash: bh };
+                    let res = guarded(|| verify_presentation_with_request_anchor(&global, &vctx, &vreq7, &pres, &vra7, &mat));
+                    let rs = match res { Ok(PresentationVerificationResult::Verified) => "Verified".to_string(), Ok(PresentationVerificationResult::Failed(f)) => format!("Failed({:?})", f), Err(_) => "PANIC".into() };
+                    let netn = |n: Network| if n == Network::Testnet { 0 } else { 1 };
+                    println!("{}", json!({"k":"match","name":name,"i":i,"kind":c.kind(),"result":rs,
+                        "rq":{"issuers":issuers.iter().map(|d| json!([d.identity_provider.0, netn(d.network)])).collect::<Vec<_>>(),
+                              "source":source.iter().map(|t| if *t == IdentityCredentialType::AccountCredential {"account"} else {"identity"}).collect::<Vec<_>>(),
+                              "ss":c.ss().iter().map(s1_json).collect::<Vec<_>>()},
+                        "pc":{"kind":c.kind(),"issuer":ip.0,"net":netn(network),"ss":c.ss().iter().map(s1_json).collect::<Vec<_>>()}}));
+                }
+            }
+            // ---- consistent lies: the prover builds the presentation FROM THE START with claimed metadata that differs
+            // from the verification material / public data the verifier resolves; every one must be rejected
+            if verified {
+                let lie_row = |name: &str, proved: &str, res: J| println!("{}", json!({"k":"lie","flow":"v1","name":name,"i":i,"kind":c.kind(),"prove":proved,"verify":res}));
+                let try_lie = |name: &str, req: RequestV1<ArCurve, W>, inp: CredentialProofPrivateInputs<'_, IpPairing, ArCurve, W>, mats: &[Mat]| {
+                    let p = guarded(|| req.prove_with_rng(&global, vec![inp].into_iter(), &mut StdRng::seed_from_u64(seed + i + 77), now));
+                    match p {
+                        Ok(Ok(p)) => lie_row(name, "Some", vb(&p, &global, mats)),
+                        Ok(Err(_)) => lie_row(name, "Err", J::Null),
+                        Err(_) => lie_row(name, "PANIC", J::Null),
+                    }
+                };
+                match c {
+                    Cred::Account { ss, cred_id, network, issuer, inputs: OwnedCredentialProofPrivateInputs::Account(own), .. } => {
+                        // issuer: claims and private inputs name another identity provider; material (resolved by cred id) has the true one
+                        let lie_ip = IpIdentity(issuer.0 + 1);
+                        let req = RequestV1 { context: context.clone(), subject_claims: vec![SubjectClaims::Account(AccountBasedSubjectClaims { network: *network, issuer: lie_ip, cred_id: *cred_id, statements: ss.iter().map(mk1).collect() })] };
+                        let inp = CredentialProofPrivateInputs::Account(AccountCredentialProofPrivateInputs { issuer: lie_ip, attribute_values: &own.attribute_values, attribute_randomness: &own.attribute_randomness });
+                        try_lie("account_issuer", req, inp, &mats);
+                        // cred id: the presentation names another registered credential; the verifier resolves THAT credential's commitments
+                        if !ss.is_empty() {
+                            let other = gen_cred(&mut r, &mut csprng, &global, &idp, false, true, *network, Some((c.al().clone(), vec![])));
+                            if let Cred::Account { cred_id: cid2, material: m2, .. } = &other {
+                                let req = RequestV1 { context: context.clone(), subject_claims: vec![SubjectClaims::Account(AccountBasedSubjectClaims { network: *network, issuer: *issuer, cred_id: *cid2, statements: ss.iter().map(mk1).collect() })] };
+                                let inp = CredentialProofPrivateInputs::Account(AccountCredentialProofPrivateInputs { issuer: *issuer, attribute_values: &own.attribute_values, attribute_randomness: &own.attribute_randomness });
+                                let mut m2 = m2.clone();
+                                if let CredentialVerificationMaterial::Account(am) = &mut m2 { am.issuer = *issuer; }
+                                try_lie("account_cred_id_of_other_credential", req, inp, &[m2]);
+                            }
+                        }
+                        // credential type: account credential presented where the verifier resolves identity material
+                        let req = RequestV1 { context: context.clone(), subject_claims: vec![c.claims()] };
+                        try_lie("account_presented_against_identity_material", req, c.inputs().borrow(), &[idp.material_identity()]);
+                    }
+                    Cred::Identity { ss, network, issuer, inputs: OwnedCredentialProofPrivateInputs::Identity(own), .. } => {
+                        // issuer: the prover runs with an ip_info naming another identity provider; the verifier resolves the
+                        // material of the CLAIMED provider (another key) or is handed the true provider's material
+                        let mut ip2 = own.ip_info.clone(); ip2.ip_identity = IpIdentity(issuer.0 + 1);
+                        let mk_req = |iss: IpIdentity, net: Network| RequestV1 { context: context.clone(), subject_claims: vec![SubjectClaims::Identity(IdentityBasedSubjectClaims { network: net, issuer: iss, statements: ss.iter().map(mk1).collect() })] };
+                        let inp = || CredentialProofPrivateInputs::Identity(IdentityCredentialProofPrivateInputs { ip_context: IpContextOnly { ip_info: &ip2, ars_infos: &own.ars_infos.anonymity_revokers }, id_object: &own.id_object, id_object_use_data: &own.id_object_use_data });
+                        try_lie("identity_issuer_vs_true_material", mk_req(ip2.ip_identity, *network), inp(), &mats);
+                        let mut other_mat = idp_other.material_identity();
+                        if let CredentialVerificationMaterial::Identity(im) = &mut other_mat { im.ip_info.ip_identity = ip2.ip_identity; }
+                        try_lie("identity_issuer_vs_claimed_providers_material", mk_req(ip2.ip_identity, *network), inp(), &[other_mat]);
+                        // validity: the identity object is altered to claim a longer validity than the provider signed
+                        let cloned: Option<IdentityObjectV1<IpPairing, ArCurve, W>> = guarded(|| serde_json::to_value(&own.id_object).ok().and_then(|v| serde_json::from_value(v).ok())).ok().flatten();
+                        if let Some(mut ido) = cloned {
+                            ido.alist.valid_to = YearMonth::new(2040, 1).unwrap();
+                            let inp2 = CredentialProofPrivateInputs::Identity(IdentityCredentialProofPrivateInputs { ip_context: IpContextOnly { ip_info: &own.ip_info, ars_infos: &own.ars_infos.anonymity_revokers }, id_object: &ido, id_object_use_data: &own.id_object_use_data });
+                            try_lie("identity_validity_extended", mk_req(*issuer, *network), inp2, &mats);
+                            let mut ido2: IdentityObjectV1<IpPairing, ArCurve, W> = serde_json::from_value(serde_json::to_value(&own.id_object).unwrap()).unwrap();
+                            if let Some((t0, a0)) = c.al().first() {
+                                ido2.alist.alist.insert(AttributeTag(*t0), W::mk(&succ_attr_pub(a0, 1).unwrap_or(A::N(77))).unwrap());
+                                let inp3 = CredentialProofPrivateInputs::Identity(IdentityCredentialProofPrivateInputs { ip_context: IpContextOnly { ip_info: &own.ip_info, ars_infos: &own.ars_infos.anonymity_revokers }, id_object: &ido2, id_object_use_data: &own.id_object_use_data });
+                                try_lie("identity_attribute_value_forged", mk_req(*issuer, *network), inp3, &mats);
+                            }
+                        }
+                        // credential type: identity credential presented where the verifier resolves account material
+                        let am = CredentialVerificationMaterial::Account(AccountCredentialVerificationMaterial { issuer: *issuer, attribute_commitments: BTreeMap::new() });
+                        try_lie("identity_presented_against_account_material", mk_req(*issuer, *network), c.inputs().borrow(), &[am]);
+                    }
+                    _ => {}
+                }
+                // network: claimed network differs from the network the verifier works on (request-anchor flow)
+                let on = if network == Network::Testnet { Network::Mainnet } else { Network::Testnet };
+                let lie_claims = match c.claims() {
+                    SubjectClaims::Account(mut a) => { a.network = on; SubjectClaims::Account(a) }
+                    SubjectClaims::Identity(mut a) => { a.network = on; SubjectClaims::Identity(a) }
+                };
+                let req = RequestV1 { context: context.clone(), subject_claims: vec![lie_claims] };
+                let p = guarded(|| req.prove_with_rng(&global, vec![c.inputs().borrow()].into_iter(), &mut StdRng::seed_from_u64(seed + i + 78), now));
+                if let Ok(Ok(p)) = p {
+                    // the allowed issuers are listed for BOTH networks, so only the network check can reject
+                    let mut cl = claims.clone(); cl.issuers = vec![IdentityProviderDid::new(ip.0, network), IdentityProviderDid::new(ip.0, on)];
+                    let d8 = VerificationRequestDataBuilder::new(unfilled.clone()).subject_claim(cl).build();
+                    let vreq8 = VerificationRequest { context: unfilled.clone(), subject_claims: d8.subject_claims.clone(), anchor_transaction_hash: vreq.anchor_transaction_hash };
+                    let vra8 = VerificationRequestAnchorAndBlockHash { verification_request_anchor: d8.to_anchor(None), block_hash: bh };
+                    let res = guarded(|| verify_presentation_with_request_anchor(&global, &vctx, &vreq8, &p, &vra8, &mat));
+                    let ok = matches!(res, Ok(PresentationVerificationResult::Verified));
+                    lie_row("network_claimed_other_than_verification_context", "Some", if res.is_err() { json!("PANIC") } else { json!(ok) });
+                    // control: the same two-network issuer list accepts the honest presentation
+                    let res = guarded(|| verify_presentation_with_request_anchor(&global, &vctx, &vreq8, &pres, &vra8, &mat));
+                    println!("{}", json!({"k":"anchor","name":"two_network_issuer_list_honest","i":i,"kind":c.kind(),"expect_ok":true,
+                        "result": match res { Ok(PresentationVerificationResult::Verified) => "Verified".to_string(), Ok(PresentationVerificationResult::Failed(f)) => format!("Failed({:?})", f), Err(_) => "PANIC".into() }}));
+                }
             }
         }
     }
